@@ -208,7 +208,23 @@ def check_vec(ctx, config, rule):
         I, r = k.run(b)
         ai = [e for e in own(r) if (e.callee or '').endswith('::allocate_in')]
         k.check('RawVec::with_capacity_in', 'allocate_in(capacity, zeroed = false, arena)', len(ai) == 1 and ai[0].args == [SELF, C(0), P2], '', b.get('span'))
-    ctx.floor(rule, k.n, 35, 'helper / accessor / iterator-glue clauses for Vec and RawVec')
+    # ---- error mapping (which failure a caller of try_reserve* sees / which panic reserve* raises)
+    for src_ty, want in (('AllocErr', 'AllocErr'), ('LayoutError', 'CapacityOverflow')):
+        b = body(db, lambda b: b['kind'] == 'assoc_fn' and 'CollectionAllocErr as ' in b['id'] and 'convert::From<' in b['id'] and src_ty in b['id'].split('From<')[1] and b['meta'].get('name') == 'from')
+        if b is None:
+            ctx.anchor_missing(rule, 'From<%s> for CollectionAllocErr' % src_ty)
+            continue
+        I, r = k.run(b)
+        k.check('CollectionAllocErr::from(%s)' % src_ty, 'maps to CollectionAllocErr::%s' % want, r.ret is not None and r.ret[0] == 'agg' and r.ret[2] == want, show(r.ret)[:60] if r.ret is not None else '', b.get('span'))
+    b = method(db, 'raw_vec::RawVec', 'reserve_internal_or_panic')
+    if b:
+        I, r = k.run(b)
+        ri = [e for e in own(r) if (e.callee or '').endswith('::reserve_internal')]
+        co = [e for e in own(r) if (e.callee or '').endswith('::capacity_overflow')]
+        okv = len(ri) == 1 and ri[0].args[1:3] == [P2, P3] and ri[0].args[3][0] == 'agg' and ri[0].args[3][2] == 'Infallible' and ri[0].args[4] == P4 and len(co) == 1 \
+            and any(f[0] == 'is' and f[2] == 'CapacityOverflow' for f in co[0].state.facts)
+        k.check('RawVec::reserve_internal_or_panic', 'reserve_internal(.., Infallible, strategy); the capacity-overflow panic exactly for Err(CapacityOverflow)', okv, '', b.get('span'))
+    ctx.floor(rule, k.n, 38, 'helper / accessor / iterator-glue clauses for Vec and RawVec')
 
 
 def check_string(ctx, config, rule):
